@@ -196,3 +196,72 @@ def c18_analyze(d):
   if Fraction(worst[0]) > Fraction(2) ** size:
     return {"status": "confirmed", "observed": desc, "expected": "|output| <= 2^size for inputs in the stated range"}
   return {"status": "refuted", "observed": desc}
+
+
+@replayer("c18_fused")
+def c18_fused(d):
+  """auto_po2 kernel: real QDense/QConv2D whose kernel quantizer has been called on weights that give the witness'
+  per-channel scales; the real map's fused_accumulator must hold the real layer's pre-activations."""
+  import tensorflow as tf
+  from qkeras import quantizers
+  w = d["witness"] or {}
+  rp = w.get("__replay__") or {}
+  ltype, xk, bk = rp["layer"], rp["xk"], rp["bk"]
+  bits, integer = int(w.get("w_bits", 4)), int(w.get("w_int", 0))
+  t = [int(w.get("t0", 0)), int(w.get("t1", 0))]
+  rank = {"QDense": 2, "QConv2D": 4}[ltype]
+  dims = [int(w.get("d%d" % i, 1)) for i in range(rank)]
+  dims[-1] = 2                                  # two output channels, one per scale
+  wq = quantizers.quantized_bits(bits, integer, 1, 1, alpha="auto_po2")
+  xq = build_qkeras(xk, None, w, "x")
+  bq = build_qkeras(bk, None, w, "b") if bk else None
+  clause = d["clause"]
+  n = bits - 1
+  top = 2 ** n - 1
+  try:
+    layer, shape = _layer_and_input(ltype, dims, wq, bq)
+    # weights on the lattice of channel c: q.scale[c] * step * code with the extreme code, so that the real
+    # quantizer reproduces them and records scale 2^t_c
+    ws = layer.get_weights()
+    k = np.zeros(ws[0].shape, dtype=np.float32)
+    for c in range(2):
+      k[..., c] = float(Fraction(2) ** t[c] * Fraction(2) ** (integer - n) * top)
+    new = [k] + ([np.zeros(ws[1].shape, np.float32)] if bk else [])
+    layer.set_weights(new)
+    layer.kernel_quantizer_internal(tf.constant(k))          # the quantizer records its scale
+    scale = np.array(layer.kernel_quantizer_internal.scale).reshape(-1)
+    lmap, g = _run_map(ltype, layer, xq, shape)
+  except Exception as e:  # pylint: disable=broad-except
+    if clause == "no_raise":
+      return {"status": "confirmed", "observed": "raised %s: %s" % (type(e).__name__, e)}
+    return {"status": "error", "detail": "%s: %s" % (type(e).__name__, e)}
+  if clause == "no_raise":
+    return {"status": "refuted", "observed": "no exception"}
+  ent = lmap[layer]
+  if clause == "fused_entry":
+    ok = "fused_accumulator" in ent and ent["fused_accumulator"] is not ent["accumulator"]
+    return {"status": "refuted" if ok else "confirmed", "observed": {"keys": sorted(ent.keys())}}
+  acc = ent["fused_accumulator"].output
+  desc = {"fused_accumulator": _desc(acc), "recorded_scale": scale.tolist(), "wanted_scale_exponents": t, "dims": dims}
+  xvals, _ = operand_values(xk, None, w, "x", xq)
+  bvals = operand_values(bk, None, w, "b", bq)[0] if bk else [Fraction(0)]
+  for sign in (1.0, -1.0):
+    for xv in sorted(set([min(xvals), max(xvals)] + [v for v in sorted(set(xvals), key=abs) if v != 0][:1])):
+      for bv in sorted(set([min(bvals), max(bvals)])):
+        new = [k * np.float32(sign)] + ([np.full(ws[1].shape, float(bv), np.float32)] if bk else [])
+        layer.set_weights(new)
+        for pattern in ("all", "one"):
+          xa = np.full(shape, float(xv), dtype=np.float32)
+          if pattern == "one":
+            flat = np.zeros(int(np.prod(shape)), np.float32)
+            flat[0] = float(xv)
+            xa = flat.reshape(shape)
+          out = np.array(layer(tf.constant(xa))).reshape(-1)
+          for c, o in enumerate(out[:2]):
+            v = Fraction(float(o))
+            if not member(acc, v):
+              desc.update({"channel": c, "weight": float(new[0][..., c].reshape(-1)[0]), "x": str(xv), "b": str(bv),
+                           "pre_activation": str(v), "inputs": pattern})
+              return {"status": "confirmed", "observed": desc,
+                      "expected": "pre-activation representable in the reported fused accumulator type"}
+  return {"status": "refuted", "observed": desc}
